@@ -875,6 +875,50 @@ def shape_warning_optional_revert():
     }
 
 
+def shape_fail_after_write():
+    """A step succeeds once, then reruns, rewrites its output and fails; then the plan drops it.  What
+    is on disk is what the step itself wrote, so the clean-up of the next successful build removes it."""
+    return {
+        "name": "fail_after_write",
+        # (s1.txt first: the histories switch the sources one at a time in this order)
+        "sources": {"s1.txt": ["a", "b"], "plan.py": ["v1", "v2"]},
+        "scripts": {
+            "./plan.py": {
+                "on": "plan.py",
+                "versions": {
+                    "v1": [["static", ["s1.txt"]], ["step", "FW", {"inp": ["s1.txt"], "out": ["fw.txt", "sub/fw2.txt"]}],
+                           ["step", "OK1", {"inp": ["s1.txt"], "out": ["ok1.txt"]}]],
+                    "v2": [["static", ["s1.txt"]], ["step", "OK1", {"inp": ["s1.txt"], "out": ["ok1.txt"]}]],
+                },
+            },
+            "FW": [["read_declared"], ["write_declared"], ["if_version", "s1.txt", "b", [["exit", 1]]]],
+            "OK1": GENERIC_WORKER,
+        },
+    }
+
+
+def shape_sglob_dirs():
+    """static() with a pattern that matches directories (they become static trees) and one that matches
+    files: a restart without changes finds the recorded match sets unchanged."""
+    return {
+        "name": "sglob_dirs",
+        "sources": {"plan.py": ["v1"], "data/a/x.txt": ["a", "b"], "data/b/y.txt": ["a", "b"], "src/g1.in": ["a", "b"]},
+        "scripts": {
+            "./plan.py": {
+                "on": "plan.py",
+                "versions": {
+                    "v1": [
+                        ["sglob", "data/*/"],
+                        ["sglob", "src/*.in"],
+                        ["step", "SD", {"inp": ["data/a/x.txt", "src/g1.in"], "out": ["sd.txt"]}],
+                    ]
+                },
+            },
+            "SD": GENERIC_WORKER,
+        },
+    }
+
+
 def shape_resources():
     return {
         "name": "resources",
@@ -930,6 +974,8 @@ SHAPES = {
         shape_glob_nodeless,
         shape_tree_recycle_overlap,
         shape_warning_optional_revert,
+        shape_fail_after_write,
+        shape_sglob_dirs,
         shape_resources,
     )
 }
